@@ -6,4 +6,9 @@ META = {
         text="Exploration: every (pattern, string) pair over all strings of length <=4 (quick) / <=5 (thorough) on {a,b,.,$,*,>} is checked against a brute-force token-wise reference (match, values, substitution round-trip, covering, wildcard index, validity agreement with Handle/NewMux/Mount/IsValidRID/Call/Auth); rapid generates longer patterns, near-miss names, tag maps and IDTransformer round-trips; thorough adds a coverage-guided fuzz campaign. Exhaustive inside the bound, sampled beyond it.",
         note="Trusted: the reference grammar in harness/internal/refmux (written from the Handle/Pattern doc comments and the property text), Go 1.26.8 toolchain. Laws are asserted only on documented input domains (valid pattern; valid name or valid pattern).",
     ),
+    "C06": dict(
+        technique="bounded-exhaustive enumeration + rapid property-based testing (differential against a brute-force reference router) + native fuzzing for never-panics",
+        text="Exploration: registration plans (pattern sets spread over root mux, Mount, Route, NewMux(path), handlers added before/after mounting or through a mounted prefix, group templates, listeners) are executed on real muxes and on a brute-force reference router; every lookup is compared for winner, params, group and listener set; registration outcomes (accepted / rejected) are compared with the documented rules. Exhaustive for all sets of <=2 patterns of <=3 tokens over a 6-token alphabet x 7 arrangements x all names of <=4 tokens; random beyond (<=12 patterns, <=6 tokens, nested mounts); arbitrary strings only for no-panic/soundness.",
+        note="Trusted: harness/internal/refmux (brute-force matcher and specificity order written from the Handle doc comment and the property text). Results for syntactically invalid resource names are treated as unspecified apart from no-panic and soundness.",
+    ),
 }
